@@ -1,11 +1,13 @@
 """C05 - export followed by load reproduces the structure on every channel."""
+import os
+
 from ..core import HarnessError, Scenario, Violation
 from .. import seams
 from ..worlds import structs
 from ..worlds.cuckoo import CuckooWorld, cuckoo_export, cuckoo_load
 from . import PropSpec
 
-STYLES = ("abs", "rel", "path", "relpath", "dirlink", "home")
+STYLES = ("abs", "rel", "path", "relpath", "dirlink", "home", "fspath")
 
 
 class C05Struct(Scenario):
@@ -36,7 +38,8 @@ class C05Struct(Scenario):
             chans = self.sub.channels
             st = {"op": "restart", "chan": rng.choice(chans), "dir": rng.choice(seams.Scratch.DIRS),
                   "style": rng.choice(STYLES), "stale": rng.chance(1, 3), "variant": rng.below(3),
-                  "load_style": rng.choice(STYLES + ("link", "link")),
+                  "load_style": rng.choice(STYLES + ("link", "link")), "mmap": rng.chance(1, 4),
+                  "cwd_gone": rng.chance(1, 8),
                   "chdir": rng.choice(seams.Scratch.DIRS) if rng.chance(1, 3) else None}
             if ff:
                 st.update({"chan": "bytes" if "bytes" in chans else chans[0], "dir": "a", "style": "abs", "stale": False,
@@ -120,6 +123,13 @@ class C05Struct(Scenario):
                 payloads[c] = sub.export("path", where, step["style"])
             else:
                 payloads[c] = sub.export(c)
+        if sub.name != "BloomFilterOnDisk" and step.get("mmap"):
+            try:
+                payloads["mmap"] = sub.export("mmap")
+            except Exception as e:
+                raise Violation("export_failed", f"{sub.name}: export into a caller-provided mmap raised "
+                                                 f"{type(e).__name__}: {e}", dict(sig, chan="mmap"))
+            ctx.fault("export_mmap")
         ref_chan = "bytes" if "bytes" in payloads else sub.channels[0]
         ref = payloads[ref_chan]
         for c, p in payloads.items():
@@ -137,8 +147,28 @@ class C05Struct(Scenario):
             ctx.fault("path_style_link")
         if sub.variant and chan in ("bytes", "fileobj"):
             ctx.fault("byteslike_" + ("bytearray", "memoryview")[sub.variant - 1])
+        gone = None
+        if step.get("cwd_gone") and chan == "path" and load_style in ("abs", "path", "fspath") and sub.name != "BloomFilterOnDisk":
+            # the process's working directory has been deleted: absolute paths must keep working
+            gone = os.path.join(scr.root, "gone")
+            os.mkdir(gone)
+            spelled_abs = scr.spell(where[0], where[1], load_style)
+            os.chdir(gone)
+            os.rmdir(gone)
+            ctx.fault("cwd_deleted")
         try:
-            g = sub.load(payloads[chan], chan, where, load_style)
+            if gone is not None:
+                class _W:  # load() spells the path itself; give it the spelling made before the cwd vanished
+                    pass
+                orig_spell = scr.spell
+                scr.spell = lambda d, n, st: spelled_abs
+                try:
+                    g = sub.load(payloads[chan], chan, where, load_style)
+                finally:
+                    scr.spell = orig_spell
+                    os.chdir(scr.dir(scr.cwd))
+            else:
+                g = sub.load(payloads[chan], chan, where, load_style)
         except Exception as e:
             raise Violation("load_failed", f"{sub.name}: loading its own export over {chan} raised "
                                            f"{type(e).__name__}: {e}", sig)
@@ -220,6 +250,12 @@ class C05Cuckoo(CuckooWorld):
         sig = {"class": self.cls.__name__, "chan": chan, "fingerprint_zero": zero}
         obs0 = self.observe(f)
         payloads = {c: cuckoo_export(self, f, c) for c in ("bytes", "path", "fileobj")}
+        for c in ("mmap", "fspath"):  # further documented export targets: a caller's mmap, any os.PathLike
+            try:
+                payloads[c] = cuckoo_export(self, f, c)
+            except Exception as e:
+                raise Violation("export_failed", f"{self.cls.__name__}: export to {c} raised {type(e).__name__}: {e}",
+                                dict(sig, chan=c))
         ref = payloads["bytes"][0]
         for c, (p, _) in payloads.items():
             if p != ref:
